@@ -35,3 +35,8 @@ check("C18", "exploration", "invariant checking on every execution of a deviatio
       "The history produced by the real sampler is checked in every explored execution (<=2 environment deviations x schedule-option grid) and in every run resumed from every checkpoint: one entry per iteration in every populated series, sample_history = initial population followed by one population per iteration with matching temperatures, and recorded temperature / ESS / ESS at beta=1 / incremental log-ratio equal to their definitions recomputed with mpmath from the neighbouring stored populations.",
       "Stub kernels; N<=8.",
       "DESIGN.md 4/C18")
+
+check("C12", "fault_enumeration", "exhaustive crash-point enumeration on runs checkpointing into a real HDF5 file, with byte-for-byte comparison of the file against the last payload",
+      "Through Aspire.sample_posterior(checkpoint_path=file) a fault is injected at every call index of the user's likelihood/prior for every cadence (1,2,3,5) x run length (1-6 iterations, fixed and adaptive, with n_final_samples) x sampler; after each fault the file must contain the configuration, the proposal and exactly the bytes of the most recent payload, written at exactly the iterations the cadence dictates plus one forced final write; payload-size sequences (every permutation of three runs with 4/8/16 particles into one file, all 27 size sequences through dump_state) catch truncated and stale-suffixed blobs; the file left by each fault is fed to Aspire.resume_from_file (real zuko flow), which must be primed with that payload.",
+      "Interruption = Python exception at a user-callable boundary; checkpoint writes observed by wrapping Sampler.default_checkpoint_callback from the harness; HDF5 internal atomicity not modelled.",
+      "DESIGN.md 4/C12")
